@@ -19,7 +19,7 @@ THEOREMS = {"C04": ["apply_patch_replay", "apply_patch_verdicts", "verdicts_are_
                     "section_reverse_restores", "section_roundtrip", "section_roundtrip_bytes", "section_creates",
                     "section_reverse_of_creation_removes", "section_deletes", "section_reverse_of_deletion_recreates",
                     "creation_roundtrip", "deletion_roundtrip", "section_reverse_of_creation_without_E", "rename_forward",
-                    "rename_reverse", "rename_roundtrip", "pure_rename_reverse", "pure_rename_reverse_quoted"],
+                    "rename_reverse", "rename_roundtrip", "pure_rename_reverse", "pure_rename_reverse_quoted", "context_epoch_deletion_reversed_refuted", "context_epoch_deletion_forward"],
             "C06": ["reapply_ignored", "reapply_reversed", "force_no_guess", "apply_ignored_total", "section_ignored_N",
                     "section_ignored_N_over", "section_ignored_N_frame",
                     "apply_reversed_total", "section_reapplied_t", "section_reapplied_t_frame",
@@ -27,13 +27,15 @@ THEOREMS = {"C04": ["apply_patch_replay", "apply_patch_verdicts", "verdicts_are_
                     "process_patch_reapplied_t", "process_patch_ignored_N", "process_patch_reapplied_N",
                     "run_patch_reapplied_t", "run_patch_file_reapplied_t", "run_patch_reapplied_N",
                     "run_patch_file_reapplied_N", "apply_patch_force", "process_section_with_apply",
-                    "section_force_no_guess", "force_messages", "stats_only_head"], "C15": ["dry_run_pure", "dry_run_predicts"], "C16": ["section_ops_allowed", "finalize_ops_allowed", "finalize_removals_allowed", "exec_op_frame"],
+                    "section_force_no_guess", "force_messages", "stats_only_head"], "C15": ["dry_run_pure", "dry_run_predicts", "dry_run_predicts_single", "dry_run_predicts_run_single", "dry_run_predicts_sections", "dry_run_predicts_run_sections", "dry_section_frame", "dry_run_series_same_file_refuted"], "C16": ["section_ops_allowed", "finalize_ops_allowed", "finalize_removals_allowed", "exec_op_frame", "steps_frame", "steps_frame_ok", "run_frame", "steps_frame_static", "run_frame_static", "run_frame_nolinks", "loop_run_allowed", "run_ops_allowed"],
             "C17": ["write_now_sets_mode", "refusal_writes_only_rejects", "git_section_mode", "section_git_next",
                     "git_series_mode"],
             "C18": ["backup_name_spec", "make_backup_for_shape", "ensure_extends", "backup_holds_original", "backup_only_once",
-                    "series_backup_two_gen", "series_backup_two", "backup_before_first_write", "git_series_backup"]}
+                    "series_backup_two_gen", "series_backup_two", "backup_before_first_write", "git_series_backup", "late_backup_plain_series_refuted"]}
 
 K_CTX_EPOCH = ("K-C05-context-epoch-deletion-reversed", "-R of a whole-file deletion in context format written diff -cN style (new name real, epoch time stamp, '--- 0 ----'): 'can't find file to patch', exit 2 (the deletion is only recognised from the new range, which the header scan of a context diff does not see)")
+
+K_DRY_SERIES = ("K-C15-dry-run-series-same-file", "several patches of one run for the same file, a later one fitting only what an earlier one leaves: --dry-run tries every patch on the file as it is on disk (it writes nothing, not even in memory) and reports failed hunks and exit status 1 (or cannot find a file that an earlier patch creates: exit 2 at the question) where the real run applies everything and exits 0")
 
 K_LATE_BACKUP = ("K-C18-late-backup-plain-series", "several plain (non-git) patches for one file in one run, an earlier one applying exactly and a later one at an offset, with fuzz or with rejects (no -b, backup-if-mismatch in force): the backup is taken when the later patch is written and holds the result of the earlier ones, not the bytes from before the run")
 
@@ -785,6 +787,9 @@ def run(prop, tier, seed):
                 word = rng.choice([b"no-such-version-string", b"no-such-version-string", (sec["a"][0][0].split() or ["zz"])[0].encode("latin-1")])
                 k_, m_, d_ = s0["tree"]["p.diff"]; s0["tree"]["p.diff"] = (k_, m_, b"Prereq: " + word + b"\n" + d_)
                 scns.append(s0)
+            # several patches of one run for the same file: the later ones apply to what the earlier ones leave (see K_DRY_SERIES)
+            for _ in range(n // 10):
+                scns.append(scen.same_file_scenario(rng, opts={"dry": 1}, git=rng.random() < 0.3))
             res, b2, m2 = l2_family(run_, exe, scns, judge_dry, cls=lambda s, r: "dry exit %d" % r["exit"], with_mtime=True)
             bad += b2; mism += m2
             # the same invocation without --dry-run on the same initial state
@@ -794,9 +799,12 @@ def run(prop, tier, seed):
             res2 = run_many(exe, real)
             for i, (a, b) in enumerate(zip(res, res2)):
                 if a["exit"] != b["exit"] or events_of(a) != events_of(b):
+                    # (listed in known_findings.txt) a dry run writes nothing, not even in memory: a later patch for a file that an
+                    # earlier patch of the same run changes is tried on the file as it is on disk
+                    series_ = bool(scns[i].get("order")) and b["exit"] != 2 and (a["exit"] != 2 or "can't find file to patch" in a["stdout"].decode("latin-1"))
                     bad.append((i, "--dry-run predicts exit %d / %d verdict lines, the real run gives exit %d / %d verdict lines" %
                                 (a["exit"], len(events_of(a)), b["exit"], len(events_of(b))),
-                                dict(scenario=describe(scns[i]), dry=dict(exit=a["exit"], stdout=a["stdout"].decode("latin-1")[-800:], stderr=a["stderr"].decode("latin-1")[-300:]),
+                                dict(dry_series_same_file=series_, scenario=describe(scns[i]), dry=dict(exit=a["exit"], stdout=a["stdout"].decode("latin-1")[-800:], stderr=a["stderr"].decode("latin-1")[-300:]),
                                      real=dict(exit=b["exit"], stdout=b["stdout"].decode("latin-1")[-800:], stderr=b["stderr"].decode("latin-1")[-300:]))))
         elif prop in ("C05", "C06"):
             b2, m2 = history_runs(run_, exe, rng, 200 if q else 3000, prop)
@@ -1146,7 +1154,7 @@ def run(prop, tier, seed):
         return run_.finish()
     if prop in ("C15", "C16", "C17", "C18") and scns:
         mism += ops_family(run_, exe, scns[:(120 if q else 1500)], label=prop + " ops")
-    finish(run_, prop, bad, mism, known=(lambda d, rep: K_CTX_EPOCH if rep.get("ctx_epoch_deletion") else K_LATE_BACKUP if rep.get("late_backup_series") else None))
+    finish(run_, prop, bad, mism, known=(lambda d, rep: K_CTX_EPOCH if rep.get("ctx_epoch_deletion") else K_LATE_BACKUP if rep.get("late_backup_series") else K_DRY_SERIES if rep.get("dry_series_same_file") else None))
     run_.cov["rule"] = "whole-program scenarios (trees, modes, bystanders, option mixes, drifted targets) run as user nobody with a private TMPDIR; each judged by the property's oracle and compared with the extracted model's run"
     if 'scns' in dir() and scns:
         run_.sample(describe(scns[0]))
